@@ -13,6 +13,8 @@ import (
 	"os/exec"
 	"sort"
 	"strings"
+	"sync"
+	"sync/atomic"
 	"time"
 )
 
@@ -43,8 +45,14 @@ type Result struct {
 	Failures    []Failure      `json:"failures"`
 	Notes       []string       `json:"notes,omitempty"`
 	Skipped     []string       `json:"skipped,omitempty"`
-	WallS       float64        `json:"wall_s"`
+	// Incomplete lists the reasons why the run did not cover its whole case space (hang budget exhausted,
+	// soft deadline reached, interrupted by a signal); empty for a complete run.
+	Incomplete []string `json:"incomplete,omitempty"`
+	WallS      float64  `json:"wall_s"`
 
+	// mu guards every field above: Case, Hist, HistAdd, HistGet, Sample, Fail, Note, Skip, MarkIncomplete, AddModelCases
+	// and Write may be called concurrently (worker goroutines, the signal handler, the checkpoint writer).
+	mu    sync.Mutex
 	seen  map[[32]byte]struct{}
 	start time.Time
 	fkeys map[string]int
@@ -67,6 +75,9 @@ func NewResult(prop, tier string, seed int64) *Result {
 
 // Case counts one evaluated case; nontrivial cases are de-duplicated by their canonical text.
 func (r *Result) Case(canonical string, nontrivial bool) {
+	Touch()
+	r.mu.Lock()
+	defer r.mu.Unlock()
 	r.Evaluations++
 	if nontrivial {
 		h := sha256.Sum256([]byte(canonical))
@@ -77,10 +88,59 @@ func (r *Result) Case(canonical string, nontrivial bool) {
 	}
 }
 
-func (r *Result) Hist(k string) { r.Histogram[k]++ }
+func (r *Result) Hist(k string) { r.HistAdd(k, 1) }
+
+// HistAdd adds n to a histogram bucket.
+func (r *Result) HistAdd(k string, n int) {
+	Touch()
+	r.mu.Lock()
+	r.Histogram[k] += n
+	r.mu.Unlock()
+}
+
+// HistGet reads a histogram bucket.
+func (r *Result) HistGet(k string) int {
+	r.mu.Lock()
+	defer r.mu.Unlock()
+	return r.Histogram[k]
+}
+
+// AddModelCases counts traces validated against the implementation.
+func (r *Result) AddModelCases(n int) {
+	r.mu.Lock()
+	r.ModelCases += n
+	r.mu.Unlock()
+}
+
+// NumSamples returns the number of samples kept so far.
+func (r *Result) NumSamples() int {
+	r.mu.Lock()
+	defer r.mu.Unlock()
+	return len(r.Samples)
+}
+
+// NumFailures returns the number of failures recorded so far (all keys, including those not kept).
+func (r *Result) NumFailures() int {
+	r.mu.Lock()
+	defer r.mu.Unlock()
+	n := 0
+	for _, k := range r.fkeys {
+		n += k
+	}
+	return n
+}
+
+// MarkIncomplete records a reason why the run does not cover its whole case space.
+func (r *Result) MarkIncomplete(format string, a ...any) {
+	r.mu.Lock()
+	r.Incomplete = append(r.Incomplete, fmt.Sprintf(format, a...))
+	r.mu.Unlock()
+}
 
 // Sample keeps up to 12 written-out cases.
 func (r *Result) Sample(s any) {
+	r.mu.Lock()
+	defer r.mu.Unlock()
 	if len(r.Samples) < 12 {
 		r.Samples = append(r.Samples, s)
 	}
@@ -88,26 +148,50 @@ func (r *Result) Sample(s any) {
 
 // Fail records a failure; at most 5 are kept per key, so a systematic defect does not flood the report.
 func (r *Result) Fail(f Failure) {
+	Touch()
+	r.mu.Lock()
+	defer r.mu.Unlock()
 	r.fkeys[f.Key]++
 	if r.fkeys[f.Key] <= 3 {
 		r.Failures = append(r.Failures, f)
 	}
 }
 
-func (r *Result) Note(format string, a ...any) { r.Notes = append(r.Notes, fmt.Sprintf(format, a...)) }
+func (r *Result) Note(format string, a ...any) {
+	Touch()
+	s := fmt.Sprintf(format, a...)
+	r.mu.Lock()
+	r.Notes = append(r.Notes, s)
+	r.mu.Unlock()
+}
 func (r *Result) Skip(format string, a ...any) {
-	r.Skipped = append(r.Skipped, fmt.Sprintf(format, a...))
+	s := fmt.Sprintf(format, a...)
+	r.mu.Lock()
+	r.Skipped = append(r.Skipped, s)
+	r.mu.Unlock()
 }
 
+// snapshot marshals a consistent copy of the result (safe while workers are still recording).
+func (r *Result) snapshot() ([]byte, error) {
+	r.mu.Lock()
+	cp := Result{Property: r.Property, Tier: r.Tier, Seed: r.Seed, Evaluations: r.Evaluations, Distinct: r.Distinct,
+		Rule: r.Rule, Exhaustive: r.Exhaustive, ModelCases: r.ModelCases, WallS: time.Since(r.start).Seconds()}
+	cp.Samples = append([]any{}, r.Samples...)
+	cp.Failures = append([]Failure{}, r.Failures...)
+	cp.Notes = append([]string(nil), r.Notes...)
+	cp.Skipped = append([]string(nil), r.Skipped...)
+	cp.Incomplete = append([]string(nil), r.Incomplete...)
+	cp.Histogram = make(map[string]int, len(r.Histogram))
+	for k, v := range r.Histogram {
+		cp.Histogram[k] = v
+	}
+	r.mu.Unlock()
+	return json.MarshalIndent(&cp, "", " ")
+}
+
+// Write writes the result ("" or "-": standard output).  A result file is replaced atomically.
 func (r *Result) Write(path string) error {
-	r.WallS = time.Since(r.start).Seconds()
-	if r.Samples == nil {
-		r.Samples = []any{}
-	}
-	if r.Failures == nil {
-		r.Failures = []Failure{}
-	}
-	b, err := json.MarshalIndent(r, "", " ")
+	b, err := r.snapshot()
 	if err != nil {
 		return err
 	}
@@ -115,11 +199,21 @@ func (r *Result) Write(path string) error {
 		_, err = os.Stdout.Write(append(b, '\n'))
 		return err
 	}
-	return os.WriteFile(path, b, 0o644)
+	tmp := fmt.Sprintf("%s.tmp%d", path, os.Getpid())
+	if err := os.WriteFile(tmp, b, 0o644); err != nil {
+		return err
+	}
+	if err := os.Rename(tmp, path); err != nil {
+		os.Remove(tmp)
+		return err
+	}
+	return nil
 }
 
 // Model sends the given lines to the Lean driver and returns one output line per input line.
 func (c *Ctx) Model(lines []string) ([]string, error) {
+	Touch()
+	defer Touch()
 	if len(lines) == 0 {
 		return nil, nil
 	}
@@ -148,7 +242,7 @@ func (c *Ctx) Model(lines []string) ([]string, error) {
 	if len(out) != len(lines) {
 		return nil, fmt.Errorf("model driver returned %d lines for %d cases", len(out), len(lines))
 	}
-	c.R.ModelCases += len(lines)
+	c.R.AddModelCases(len(lines))
 	return out, nil
 }
 
@@ -211,4 +305,109 @@ func ReadReplay(path string, into any) error {
 		return err
 	}
 	return json.Unmarshal(wrap.Input, into)
+}
+
+// ---- interruption ----
+
+var (
+	intMu    sync.Mutex
+	intHooks = map[int]func(){}
+	intNext  int
+)
+
+// OnInterrupt registers f to be run when the process is told to stop (SIGTERM / SIGINT), before the partial result
+// is written: a check that keeps findings outside its Result (a child process it is waiting for) brings them in
+// there.  The returned function removes the registration.
+func OnInterrupt(f func()) (cancel func()) {
+	intMu.Lock()
+	defer intMu.Unlock()
+	id := intNext
+	intNext++
+	intHooks[id] = f
+	return func() { intMu.Lock(); delete(intHooks, id); intMu.Unlock() }
+}
+
+// RunInterruptHooks is called by main's signal handler.
+func RunInterruptHooks() {
+	intMu.Lock()
+	var fs []func()
+	for _, f := range intHooks {
+		fs = append(fs, f)
+	}
+	intMu.Unlock()
+	for _, f := range fs {
+		f()
+	}
+}
+
+// Absorb merges what another process of the same check recorded (its result file, possibly a partial one) into r:
+// counters are added, failures, notes, samples and incomplete-marks appended.
+func (r *Result) Absorb(b []byte) error {
+	var o Result
+	if err := json.Unmarshal(b, &o); err != nil {
+		return err
+	}
+	r.mu.Lock()
+	defer r.mu.Unlock()
+	r.Evaluations += o.Evaluations
+	r.Distinct += o.Distinct
+	r.ModelCases += o.ModelCases
+	if r.Rule == "" {
+		r.Rule = o.Rule
+	}
+	for k, v := range o.Histogram {
+		r.Histogram[k] += v
+	}
+	for _, s := range o.Samples {
+		if len(r.Samples) < 12 {
+			r.Samples = append(r.Samples, s)
+		}
+	}
+	for _, f := range o.Failures {
+		r.fkeys[f.Key]++
+		if r.fkeys[f.Key] <= 3 {
+			r.Failures = append(r.Failures, f)
+		}
+	}
+	r.Notes = append(r.Notes, o.Notes...)
+	r.Skipped = append(r.Skipped, o.Skipped...)
+	r.Incomplete = append(r.Incomplete, o.Incomplete...)
+	return nil
+}
+
+// ---- activity (for main's watchdog) ----
+
+var lastActivity atomic.Int64
+
+// Touch records that the check is making progress: every Result method, every budget query and every line another
+// process of the run appends to the budget ledger counts.
+func Touch() { lastActivity.Store(time.Now().UnixNano()) }
+
+// SinceActivity returns how long ago the check last showed progress.
+func SinceActivity() time.Duration {
+	v := lastActivity.Load()
+	if v == 0 {
+		return 0
+	}
+	return time.Since(time.Unix(0, v))
+}
+
+// KeepAlive keeps the activity clock going (every 2 s) while this process supervises a child process that has a
+// timeout of its own; the returned function stops it.
+func KeepAlive() (stop func()) {
+	done := make(chan struct{})
+	go func() {
+		t := time.NewTicker(2 * time.Second)
+		defer t.Stop()
+		for {
+			select {
+			case <-done:
+				return
+			case <-t.C:
+				Touch()
+			}
+		}
+	}()
+	var once sync.Once
+	return func() { once.Do(func() { close(done) }) }
 }
